@@ -134,6 +134,9 @@ struct Ip4 {
     ident: u16,
     off: usize,
     mf: bool,
+    df: bool,
+    rsv: bool,
+    ttl: u8,
     proto: u8,
     src: [u8; 4],
     dst: [u8; 4],
@@ -156,6 +159,9 @@ fn parse_ipv4(b: &[u8]) -> std::result::Result<Ip4, String> {
         ident: u16::from_be_bytes([b[4], b[5]]),
         off: ((fo & 0x1fff) as usize) << 3,
         mf: fo & 0x2000 != 0,
+        df: fo & 0x4000 != 0,
+        rsv: fo & 0x8000 != 0,
+        ttl: b[8],
         proto: b[9],
         src: [b[12], b[13], b[14], b[15]],
         dst: [b[16], b[17], b[18], b[19]],
@@ -714,7 +720,7 @@ fn oracle_tx(c: &Case, fails: &mut Vec<String>, st: &mut Stats) {
     let mut pending: Vec<(Vec<u8>, bool, usize)> = vec![];
     // the fragment train being received by the independent reassembler: (ident, bytes so far)
     let mut cur: Option<(u16, Vec<u8>)> = None;
-    let mut cur_hdr: Option<([u8; 4], [u8; 4], u8)> = None;
+    let mut cur_hdr: Option<([u8; 4], [u8; 4], u8, u8, bool)> = None;
     let mut last_ident: Option<u16> = None;
     for (opi, op) in c.ops.iter().enumerate() {
         let t: Vec<&str> = op.split_whitespace().collect();
@@ -761,6 +767,11 @@ fn oracle_tx(c: &Case, fails: &mut Vec<String>, st: &mut Stats) {
                         fail("fragment-to-wrong-link-address", format!("op#{} ident {} off {}: IP destination {:?} (neighbour {}) but link-layer destination is neighbour {}", opi, p.ident, p.off, p.dst, nbr, link));
                     }
                     let nbr = nbr.wrapping_sub(1);
+                    // flags: a fragment (MF set or offset != 0) never carries DF; the reserved bit is never set
+                    // (an unfragmented packet has offset 0 and MF clear by the definition of the branch below)
+                    if p.rsv || ((p.mf || p.off != 0) && p.df) {
+                        fail("fragment-carries-dont-fragment", format!("op#{} ident {} off {} mf {}: DF={} reserved={}", opi, p.ident, p.off, p.mf, p.df, p.rsv));
+                    }
                     if !(p.mf || p.off != 0) {
                         // prefer an ingress reply when a train is in progress (identical payloads may be queued both ways)
                         let in_train = cur.is_some();
@@ -795,9 +806,9 @@ fn oracle_tx(c: &Case, fails: &mut Vec<String>, st: &mut Stats) {
                         }
                         last_ident = Some(p.ident);
                         cur = Some((p.ident, vec![]));
-                        cur_hdr = Some((p.src, p.dst, p.proto));
+                        cur_hdr = Some((p.src, p.dst, p.proto, p.ttl, p.df));
                     }
-                    if cur_hdr.is_some_and(|h| h != (p.src, p.dst, p.proto)) || p.src != LOCAL {
+                    if cur_hdr.is_some_and(|h| h != (p.src, p.dst, p.proto, p.ttl, p.df)) || p.src != LOCAL {
                         fail("fragment-header-fields-differ", format!("op#{} ident {} off {}: {:?}->{:?} proto {}", opi, p.ident, p.off, p.src, p.dst, p.proto));
                     }
                     match &mut cur {
